@@ -81,6 +81,18 @@ def main():
         sys.path.insert(0, os.path.dirname(os.path.abspath(__file__)))
         import c15
         hs += [h for h in c15.timing_histories(rng, thorough) if h["id"][1] in "MO"]
+        # the re-arm itself fails (each of the daemon's opens of lock/trigger in turn, and its opendir of todo): whatever it
+        # then does about new mail, it must go on blocking with a positive time-out, not spin (non-strict: only that is judged)
+        import errno
+        for call, obj, ks in (("open", "trigger", range(1, 6)), ("open", "todo", range(1, 4))):
+            for k in ks:
+                for err in (errno.ENFILE, errno.ENOENT):
+                    h = histories.gen_history(rng, 7500 + k, thorough)
+                    h["script"] = [("inject", 0), ("answer", "fifo")] + [("inject", i) for i in range(1, len(h["messages"]))] + [("answer", "fifo"), ("nextdue", 0), ("answer", "fifo")]
+                    h["strict"] = 0
+                    h["fault"] = {"role": "qmail-send", "call": call, "k": k, "what": "fail %d" % err, "obj": obj}
+                    h["id"] = "rearm-fails-%s-%d-%d" % (obj, k, err)
+                    hs.append(h)
         runs += qsengine.run_histories(ck, tree, hs)
     bad, vres = qsengine.judge(ck, runs)
     ck.add_tlc("QSendTrace", vres)
